@@ -62,7 +62,8 @@ def _reg(pid, run, theorems=(), translator=("T1",), rule="", level_text="", leve
 
 _reg("C01", c01.run, translator=("T1", "T2", "T3"),
      theorems=["NirVerif.C01.edges_roundtrip", "NirVerif.C01.transport", "NirVerif.C01.nothing_added", "NirVerif.C01.type_tag",
-               "NirVerif.C01.leaf_end_to_end", "NirVerif.C01.leaf_native_roundtrip", "NirVerif.C01.backVal_array",
+               "NirVerif.C01.leaf_end_to_end", "NirVerif.C01.leaf_native_roundtrip", "NirVerif.C01.graph_end_to_end",
+               "NirVerif.C01.child_step", "NirVerif.C01.backVal_array",
                "NirVerif.C01.backVal_npscalar", "NirVerif.C01.backVal_int"],
      rule="Random graphs over all 17 primitives + nested graphs (depth <= 3), 0-8 nodes, arbitrary names (ASCII, Latin-1, "
           "CJK, emoji, whitespace, dots, reserved words, '/', NUL), arbitrary edge multisets (cyclic, self-loops, parallel, "
@@ -78,9 +79,14 @@ _reg("C01", c01.run, translator=("T1", "T2", "T3"),
                 "stores it and item[()] returns it), whatever order the file lists the members in, the empty metadata "
                 "re-defaulted; for file-native values (arrays, little-endian numpy scalars - every node that itself came "
                 "from a file) that is the constructor on the node's own field values (leaf_native_roundtrip), i.e. read o "
-                "write agrees with the dictionary round trip of C13. PARTIAL: for whole graphs (children re-ordered by link "
-                "name, nested groups, Input/Output/Flatten's class-specific from_dict) the final step is covered by the "
-                "correspondence run and the oracle's strict two-sided comparator, not by one theorem.",
+                "write agrees with the dictionary round trip of C13. End to end for flat graphs (graph_end_to_end): for a graph "
+                "whose children are leaf primitives of any class (Input/Output/Flatten with their class-specific from_dict "
+                "included; any number of nodes, any names, any edge list; empty metadata), whenever write succeeds and "
+                "read returns a graph, that graph has exactly the same edges in order, empty metadata, the same set of "
+                "node names (in link-name order) and under every name the node the class constructor builds from the "
+                "transported field values of the original. PARTIAL: nested sub-graphs and non-empty metadata are covered "
+                "by transport/C16 theorems plus the correspondence run and the oracle, not by this theorem; that the "
+                "constructor applied to transported values yields an *equivalent* node is C05/C19 + oracle.",
      level_note="Lean kernel; hand-written models of to_dict/from_dict/write/read and of the h5py contract (create_dataset conversions, item[()], link names, iteration order), validated against the real library and real files on every run.")
 _reg("C02", c02.run,
      theorems=["NirVerif.C02.array_bits", "NirVerif.C02.scalar_bits", "NirVerif.C02.param_roundtrip", "NirVerif.C02.toDict_field"],
